@@ -248,4 +248,57 @@ def SharpOK (c : SharpConsts) : Bool :=
   decide (2 ≤ c.radixLo) && decide (c.radixLo ≤ c.radixHi) && decide (c.radixHi ≤ 62) &&
   decide (c.maxRank ≤ 65536)
 
+/-! ## (3) format argument cursor (pkg/cl/control.go: nextArg, dirMove) -/
+
+/-- what the extractor reads off control.go: every index expression `c.args[c.argPos]` is reached
+    only after `0 <= c.argPos` (checksLow) and `c.argPos < len(c.args)` (checksHigh) were checked -/
+structure CursorGuards where
+  checksLow : Bool
+  checksHigh : Bool
+deriving Repr
+
+inductive ArgOut where
+  /-- "missing argument for directive" -/
+  | raise
+  /-- the index of the argument taken and the cursor afterwards -/
+  | got (idx : Nat) (pos : Int)
+  /-- c.args[c.argPos] with the cursor outside the slice: Go's index out of range -/
+  | fault
+deriving DecidableEq, Repr
+
+/-- nextArg: guard, index, increment -/
+def nextArg (g : CursorGuards) (len : Nat) (pos : Int) : ArgOut :=
+  if (g.checksLow && decide (pos < 0)) || (g.checksHigh && decide ((len : Int) ≤ pos)) then .raise
+  else if pos < 0 ∨ (len : Int) ≤ pos then .fault
+  else .got pos.toNat (pos + 1)
+
+/-- dirMove (`~n*`, `~n:*`, `~n@*`): Go int arithmetic (wraps), then the range check; none = raise -/
+def moveCursor (len : Nat) (pos : Int) (colon at_ : Bool) (n : Int) : Option Int :=
+  let p := if colon then wrapInt (pos - n) else if at_ then n else wrapInt (pos + n)
+  if p < 0 ∨ (len : Int) < p then none else some p
+
+inductive CurOp where
+  | next
+  | move (colon at_ : Bool) (n : Int)
+deriving Repr
+
+inductive CurRun where
+  /-- indices of the arguments consumed, in order, and the final cursor -/
+  | done (taken : List Nat) (pos : Int)
+  | raise (at_ : Nat)
+  | fault (at_ : Nat)
+deriving DecidableEq, Repr
+
+def runCursor (g : CursorGuards) (len : Nat) : Int → Nat → List Nat → List CurOp → CurRun
+  | pos, _, taken, [] => .done taken.reverse pos
+  | pos, i, taken, .next :: rest =>
+    match nextArg g len pos with
+    | .raise => .raise i
+    | .fault => .fault i
+    | .got idx pos' => runCursor g len pos' (i + 1) (idx :: taken) rest
+  | pos, i, taken, .move colon at_ n :: rest =>
+    match moveCursor len pos colon at_ n with
+    | none => .raise i
+    | some pos' => runCursor g len pos' (i + 1) taken rest
+
 end SlipVerif.ReaderStack
